@@ -18,12 +18,12 @@ LEVEL_TEXT = ("bounded, solver-decided: for every harness the SAT solver shows t
 # property -> (claimed?, level text suffix, level_note, design_ref) or reason for not applicable
 CLAIMED = {
     "C01": dict(
-        text="Header layout and round trip over all field values at full width against an independent spec table; every synchronous emission route (to_vec, write_to, write_message, write_message_streaming, into_wire_bytes) pairwise through that oracle at small constant payload sizes and every body-capacity relation, also into a short-writing sink; builder; parse-back; TCP-vs-WebSocket response framing parity.",
-        note="Bounds: |query| <= 2, |body| <= 3 per route instance (sizes are per-instance constants, contents and all 11 header fields symbolic). Outside: async writers (write_message_async, async_server::write_view_response), payloads larger than the instances, interop fixtures, bytes from running servers.",
+        text="Header layout and round trip over all field values at full width against an independent spec table; every synchronous emission route (to_vec, write_to, write_message, write_message_streaming, into_wire_bytes) pairwise through that oracle at small constant payload sizes and every body-capacity relation, also into a short-writing sink; builder; parse-back; TCP-vs-WebSocket response framing parity; the async routes (write_message_async, async_server::write_view_response) driven by a two-line executor over tokio's in-memory AsyncWrite for Vec<u8>.",
+        note="Bounds: |query| <= 2, |body| <= 3 per route instance (sizes are per-instance constants, contents and all 11 header fields symbolic). Outside: payloads larger than the instances, async writers over real sockets (only the in-memory writer is driven), interop fixtures, bytes from running servers.",
         ref="DESIGN.md §4 C01"),
     "C02": dict(
         text="Header::decode, Message/MessageView::from_slice(_exact) total on fully symbolic buffers (<= 56 bytes, every length incl. wrapping 64-bit sums) with an exact accept/reject oracle; read_message on hostile streams (symbolic contents, truncation, short read, I/O error) and with never-allocatable declared sizes under an allocator-failure stub.",
-        note="Bounds: buffers/streams <= 56 bytes; stream-reader payload sizes are per-instance constants (quick: concrete EOF/short-read shapes; thorough: symbolic EOF + one symbolic short read); declared sizes <= 8 bytes or >= 2^62. Outside: async readers; read_message_into with sizes in [2^62,2^63) (it grows through realloc, which Kani does not let a stub fail; only its capacity-overflow class >= 2^63 is decided); callers in the connection loops. Dev-profile arithmetic: any reachable overflow is reported.",
+        note="Bounds: buffers/streams <= 56 bytes; stream-reader payload sizes are per-instance constants (quick: concrete EOF/short-read shapes; thorough: symbolic EOF + one symbolic short read); declared sizes <= 8 bytes or >= 2^62. Outside: the async readers except read_message_into_async's capacity-overflow class (the others did not finish under CBMC); read_message_into with sizes in [2^62,2^63) (it grows through realloc, which Kani does not let a stub fail; only its capacity-overflow class >= 2^63 is decided); callers in the connection loops. Dev-profile arithmetic: any reachable overflow is reported.",
         ref="DESIGN.md §4 C02"),
     "C03": dict(
         text="The shared dispatch core (route, route_request_view, dispatch_view, dispatch, error-response builders, echo rule): response/notify discipline, exactly-once handler invocation, error-code mapping, and equality of the three compositions the transports build (TCP borrowed, WebSocket inline, WebSocket off-reader) for symbolic headers and handler outcomes.",
@@ -34,12 +34,12 @@ CLAIMED = {
         note="PARTIAL (one clause): delivery of the matching response, unknown-id/duplicate/notify routing, batch alignment and id distinctness live in threads/tasks/sockets and are outside; a mutation in a response loop is not detected.",
         ref="DESIGN.md §4 C04"),
     "C07": dict(
-        text="Mount prefix/boundary logic on symbolic paths and prefixes (router match vs handler strip agree; /ab not under /a), Router::get precedence on a concrete table with a symbolic path selector, middleware applied exactly once regardless of registration order with execution mode preserved, struct segments = RFC 6901 tokens for symbolic paths incl. the 16-segment stack/heap boundary, owned-vs-borrowed agreement for handlers up to the point a serde parser would run.",
-        note="PARTIAL: strings <= 5 bytes over a 3-5 letter alphabet; routing table concrete (hashing a symbolic key through SipHash/hashbrown is out of reach); serde_json / beve-serde body parsing (accepted formats of JSON/typed/registry/struct handlers) outside; derive macro outside.",
+        text="Mount prefix/boundary logic for registry and struct mounts on symbolic paths (router-side match and handler-side strip agree; /ab is not under /a; the remainder handed on is exactly the path minus the prefix); a forwarding middleware chain is transparent and runs exactly once per dispatch on every entry point with the execution mode preserved; the default borrowed dispatch path delegates faithfully (also behind the off-reader wrapper).",
+        note="PARTIAL. Registered harnesses use per-instance constant mount prefixes with symbolic paths <= 5 bytes over {/,a,b}. NOT decided (harnesses exist but do not finish under CBMC and are kept in the unregistered 'experimental' tier): exact-route-over-mount precedence in Router::get (std HashMap), middleware re-wrapping on registration order, struct segments = RFC 6901 tokens and the 16-segment boundary (str::split/memchr/replace), owned-vs-borrowed agreement of the built-in JSON/typed/bulk handlers (serde / beve parsers are encoded even on rejected formats). Derive macro outside.",
         ref="DESIGN.md §4 C07"),
     "C08": dict(
-        text="Bulk path only: bulk encode -> bulk decode is bit-exact for every element bit pattern; streaming writer == buffered builder; aligned form lands the payload on an element boundary of the frame for every query residue 0..8 and survives into_wire_bytes; wrong body format / wrong element type rejected.",
-        note="PARTIAL: identity with the generic serde encoding and cross-decoding through serde are NOT decided (beve's serde walk exhausts memory under CBMC) - that is the first sentence of the property; 2 elements per instance; half floats, complex, client/server routes over sockets outside.",
+        text="Bulk path only: bulk encode -> bulk decode is bit-exact for every element bit pattern; streaming writer == buffered builder; aligned form lands the payload on an element boundary of the frame for every query residue 0..8 and survives into_wire_bytes; wrong body format / wrong element type rejected; complex pairs (Complex<f32>) round trip and stream identically.",
+        note="PARTIAL: identity with the generic serde encoding and cross-decoding through serde are NOT decided (beve's serde walk exhausts memory under CBMC) - that is the first sentence of the property; 2 elements per instance; half floats and client/server routes over sockets outside; the borrowing bulk route (TypedSliceRefHandler, borrow-vs-copy by buffer alignment) needs > 11 GB per harness and is only in the unregistered 'experimental' tier.",
         ref="DESIGN.md §4 C08"),
     "C09": dict(
         text="Sequential composition ChunkSink -> channel (FIFO contract) -> Session::pull -> chunk_response: concatenation equals the payload, exactly one final chunk, non-final chunks full-size, empty payload = one empty final chunk, for symbolic payload bytes at every boundary residue (instances).",
@@ -47,7 +47,7 @@ CLAIMED = {
         ref="DESIGN.md §4 C09"),
     "C10": dict(
         text="Trailer clauses only: TrailerHold forwards exactly all but the last N bytes for symbolic streams across arbitrary write splits, returns exactly the last N bytes as trailer, and rejects a stream shorter than N without forwarding anything.",
-        note="NARROW: the commit protocol (temp file, last_seen, flush, fsync, rename, TempFile drop), crash points, the real filesystem and the async pullers are outside - std::fs::File/Client values cannot be stepped under Kani; a change to write_file/TempFile is not detected.",
+        note="NARROW: the commit protocol (temp file, last_seen, flush, fsync, rename, TempFile drop), crash points, the real filesystem and the async pullers are outside - std::fs::File/Client values cannot be stepped under Kani; a change to write_file/TempFile is not detected. (A commit-protocol harness with filesystem stubs was built and abandoned: Kani 0.68 hands back garbage for the return value of a stubbed function whose Result<_, RepeError> the caller drops immediately, producing spurious double-free reports; see DESIGN.md §2.)",
         ref="DESIGN.md §4 C10"),
     "C11": dict(
         text="One arbitrary operation (record_ack, record_sent, advance_to_file, cancel, request_resume, wait_for_credit with expired deadline, the documented producer step) from an arbitrary state satisfying acked <= sent, all values full 64-bit: an inductive step that covers histories of any length.",
@@ -55,15 +55,15 @@ CLAIMED = {
         ref="DESIGN.md §4 C11"),
     "C12": dict(
         text="By reduction to sequential obligations decided on the real functions: O1 every enabling transition (ack, cancel, advance, resume) issues notify_all and sends/pushes never enable; O2 the real wait_for_credit / wait_for_reconnect loops against a wait_timeout stub that havocs the protected state (arbitrary interference, spurious wake-ups) and a symbolic monotone clock never sleep on a true predicate, sleep exactly until the deadline, and report faithfully; O3 by construction (Mutex<Inner>).",
-        note="The implication O1&O2&O3 => no lost wake-up under any interleaving is the standard monitor argument and, with std Mutex/Condvar semantics, is the TRUSTED base; real thread schedules are not run. Bounds: <= 2 sleeps per wait call, clock in whole seconds, strictly increasing; 1 s tolerance on durations whose deadline std computes with Instant+Duration (Kani leaves those nanoseconds nondeterministic).",
+        note="The implication O1&O2&O3 => no lost wake-up under any interleaving is the standard monitor argument and, with std Mutex/Condvar semantics, is the TRUSTED base; real thread schedules are not run. Bounds: <= 2 sleeps per wait call (3 in the thorough tier for the credit waiter), clock in whole seconds, strictly increasing; 1 s tolerance on durations whose deadline std computes with Instant+Duration (Kani leaves those nanoseconds nondeterministic).",
         ref="DESIGN.md §4 C12"),
     "C13": dict(
         text="Ring built by <= 3 pushes with symbolic offsets/logical lengths/wire lengths/capacity compared to a reference eviction model (most recent retained, oldest first, wire-byte bound, byte-identical, contiguous); resume acceptance predicate exact, refused resume changes nothing, accepted resume installs the peer, is delivered once, and replays a gapless byte-identical tail; advance empties ring and discards pending resume.",
-        note="Bounds: histories of <= 3 pushes (quick: 2 for resume), wire bodies <= 2 bytes; offsets assumed not to overflow u64 (documented producer contract).",
+        note="Bounds: ring histories of <= 3 pushes; resume on rings built by <= 2 pushes (the 3-push resume harness runs out of memory: experimental); wire bodies <= 2 bytes; offsets assumed not to overflow u64 (documented producer contract).",
         ref="DESIGN.md §4 C13"),
     "C14": dict(
-        text="Pointer layer: parse_pointer rejects exactly the RFC 6901-malformed pointers (with the not-found class) and yields the unescaped tokens; canonical_key (borrowed fast path) and canonical_pointer(parse_pointer) (slow path) both equal an independent oracle; escape/unescape round trip; json_pointer::parse = RFC tokens; mounting strips exactly the prefix (shared with C07).",
-        note="PARTIAL: strings <= 3 bytes over {/,~,0,1,a}; the JSON tree semantics (read-your-write, non-interference, root merge), the call/read/write decision over the std HashMap + serde_json, body decoding and linearizability are outside.",
+        text="Only the mount clause: a registry mounted under a prefix receives exactly the paths at or below that prefix at a '/' boundary and strips exactly the prefix ('/' for the mount point itself); router-side matching and handler-side stripping agree, for symbolic paths.",
+        note="NARROW. The pointer layer (parse_pointer, canonical_key fast path vs re-canonicalising path, escape/unescape round trip, json_pointer::parse) has harnesses over symbolic strings of 2-3 bytes, but str::split / memchr / replace on symbolic bytes did not finish under CBMC (> 40 min, > 13 GB): they are kept in the unregistered 'experimental' tier and are NOT part of this claim. The JSON tree semantics, the call/read/write decision (std HashMap + serde_json), body decoding and linearizability are outside.",
         ref="DESIGN.md §4 C14"),
     "C17": dict(
         text="check_outbound exact over the full usize range; frame_outbound delivers at/below-limit and unlimited messages byte-for-byte unchanged and reports nothing; an oversized notify is dropped and reported once with exact size and limit; create_error_message yields a well-formed error reply.",
